@@ -29,6 +29,9 @@ Record item := {
   it_id : bytes;
   it_obj : tval;                       (* o.Geo().AppendJSON / o.String(); a string object is a TStr *)
   it_fields : list (bytes * tval);     (* the object's field list, in field-name order *)
+  it_jpath : list (bytes * tval);      (* listed names that field.List.Get answers through a JSON path: a name
+                                          j.p when the object stores a JSON-valued field j in which gjson finds p
+                                          (the JSON path is tried before the stored name) *)
   it_distout : bool;                   (* opts.distOutput *)
   it_dist : bytes;                     (* strconv.FormatFloat(opts.dist) / appendJSONFloat *)
   it_dist_pos : bool                   (* opts.dist > 0 *)
@@ -75,6 +78,20 @@ Fixpoint getv (n : bytes) (fs : list (bytes * tval)) : tval :=
 
 Definition nonzero (p : bytes * tval) : bool := negb (is_zero (snd p)).
 
+Fixpoint getv_opt (n : bytes) (fs : list (bytes * tval)) : option tval :=
+  match fs with
+  | [] => None
+  | (k, v) :: r => if bytes_eqb n k then Some v else getv_opt n r
+  end.
+
+(* opts.obj.Fields().Get(name) of the JSON arm: List.Get resolves a dotted name inside a JSON-valued
+   field first, then looks for the stored name *)
+Definition getj (n : bytes) (it : item) : tval :=
+  match getv_opt n (it_jpath it) with
+  | Some v => v
+  | None => getv n (it_fields it)
+  end.
+
 (* ---------- JSON arm ---------- *)
 
 Definition json_item (r : scanres) (it : item) : jval :=
@@ -85,7 +102,7 @@ Definition json_item (r : scanres) (it : item) : jval :=
   | _ =>
       JObj ([(k_id, JStr (it_id it)); (k_object, tjson (it_obj it))] ++
             (if fields_output r && negb (match sr_names r with [] => true | _ => false end)
-             then [(k_fields, JArr (map (fun n => tjson (getv n (it_fields it))) (sr_names r)))] else []) ++
+             then [(k_fields, JArr (map (fun n => tjson (getj n it)) (sr_names r)))] else []) ++
             (if show_dist it then [(k_distance, JTok (it_dist it))] else []))
   end.
 
@@ -284,8 +301,13 @@ Inductive covers : list (bytes * tval) -> list bytes -> Prop :=
 | cov_skip fs n ns : covers fs ns -> covers fs (n :: ns)
 | cov_take n v fs ns : covers fs ns -> covers ((n, v) :: fs) (n :: ns).
 
-Definition wf_res (r : scanres) : Prop :=
+Definition wf_names (r : scanres) : Prop :=
   NoDup (sr_names r) /\ Forall (fun it => covers (it_fields it) (sr_names r)) (sr_items r).
+
+(* ... and no listed field name is answered through a JSON path of another field of the same
+   object (open finding C17-scan-json-path-field: c17_scan_json_path_field_refuted) *)
+Definition wf_res (r : scanres) : Prop :=
+  wf_names r /\ Forall (fun it => it_jpath it = []) (sr_items r).
 
 (* the seeded variant C17/2: the JSON ids arm tests dist > 0 only *)
 Definition json_item_dropzero (r : scanres) (it : item) : jval :=
